@@ -828,6 +828,16 @@ impl L7ListenerHandler for HttpListener {
         // `_` under the tolerant-http1-parser feature). All accepted
         // bytes are ASCII (≤ 0x7F), so the slice is valid single-byte UTF-8.
         let host = unsafe { from_utf8_unchecked(hostname) };
+        // RFC 9110 §4.2.3: the host is case-insensitive. Frontend hostnames
+        // are stored lower-cased (idna), so the request host is looked up
+        // lower-cased too; `Host: Example.COM` must reach `example.com`.
+        let lowered_host;
+        let host = if host.bytes().any(|b| b.is_ascii_uppercase()) {
+            lowered_host = host.to_ascii_lowercase();
+            lowered_host.as_str()
+        } else {
+            host
+        };
 
         let route = self.fronts.lookup(host, uri, method).map_err(|e| {
             incr!(names::http::FAILED_BACKEND_MATCHING);
